@@ -53,6 +53,7 @@ def cases(tier, seed):
         out.append(f"series-06|{z}|60|daily")
     out.append("series-06|US/Pacific|30|daily")
     out.append("series-06g|US/Pacific|60|daily")
+    out.append("frame-col|US/Pacific|30|daily")  # timestamps in a 'datetime' column, half-hourly feed
     out.append("frame-elec|US/Pacific|60|daily")  # electricity feed with zero readings on the probed day
     out.append("series-none|US/Pacific|60|daily")  # temperature-only reporting data, feed starting at 17:00 local  # meter read at 06:00 and one interior meter day without a usable reading
     if tier != "thorough":  # a 25-hour day in the quick tier as well
@@ -109,6 +110,11 @@ def _build(cls, entry, zone, feed, days, idx, nan_pos, temp, sym, env, meter_mis
     if entry == "frame":
         obs = D.col("o", n, (), sym, env)
         df = pd.DataFrame({"observed": obs, "temperature": temp}, index=idx)
+        d = cls(df, is_electricity_data=False)
+    elif entry == "frame-col":
+        # the timestamps handed over as a 'datetime' column instead of the index (documented input form)
+        obs = D.col("o", n, (), sym, env)
+        df = pd.DataFrame({"datetime": idx, "observed": obs, "temperature": temp})
         d = cls(df, is_electricity_data=False)
     elif entry == "frame-elec":
         # electricity: a reading of exactly 0 is treated as a missing USAGE reading; the temperature of that hour still counts
